@@ -72,7 +72,7 @@ def damage_variants(data, sampled):
     yield "zerofill", bytes(n)
 
 
-SHAPES = ("abs", "bare", "dot", "sub")
+SHAPES = ("abs", "bare", "dot", "sub", "bakdir", "dotdir")
 
 
 def one_load(version, tmp, ext, main_bytes, bak_bytes, expect, stats, case, label, api, shape="abs"):
@@ -86,6 +86,11 @@ def one_load(version, tmp, ext, main_bytes, bak_bytes, expect, stats, case, labe
         elif shape == "sub":
             os.chdir(os.path.dirname(tmp))
             given = f"{os.path.basename(tmp)}/net.{ext}"
+        elif shape in ("bakdir", "dotdir"):
+            # the file lives in a directory whose own name contains '.bak' / a dot (a copied configuration
+            # directory, conf.d, ~/.config ...); a sibling without that part exists as well
+            sub = os.path.join(tmp, "gateway.bak" if shape == "bakdir" else "conf.d")
+            given = os.path.join(sub, f"net.{ext}")
         else:
             given = os.path.join(tmp, f"net.{ext}")
         return _one_load(version, tmp, ext, main_bytes, bak_bytes, expect, stats, case, f"{label}, path {shape}", api, given)
@@ -96,6 +101,10 @@ def one_load(version, tmp, ext, main_bytes, bak_bytes, expect, stats, case, labe
 def _one_load(version, tmp, ext, main_bytes, bak_bytes, expect, stats, case, label, api, given):
     path = os.path.join(tmp, f"net.{ext}")
     persist.restore(tmp, {})
+    if os.path.isabs(given) and os.path.dirname(given) != tmp:
+        path = given
+        os.makedirs(os.path.dirname(path))
+        os.makedirs(os.path.join(tmp, "gateway"), exist_ok=True)
     if main_bytes is not None:
         with open(path, "wb") as fh:
             fh.write(main_bytes)
@@ -255,7 +264,7 @@ def check_case(case, stats=None, only=None, part=(0, 1), collect=None):
                 expect = s_bak if blab == "intact" else empty
                 api = "start_persistence" if count % 5 == 0 else ("async_start_persistence" if count % 7 == 3 else "safe_load_sensors")
                 count += 1
-                guarded(version, tmp, ext, mdata, bdata, expect, stats, case, label, api, SHAPES[(idx + bi) % 4])
+                guarded(version, tmp, ext, mdata, bdata, expect, stats, case, label, api, SHAPES[(idx + bi) % len(SHAPES)])
                 if stats is not None:
                     inside = mlab == "zerofill" or (mlab.startswith("trunc@") and 0 < int(mlab[6:]) < len(main_data))
                     nt = inside and blab != "absent"
